@@ -167,6 +167,23 @@ pub fn t_bitor(a: &Value, b: &Value) -> RRes { bit_op(a, b, |x, y| x | y, |x, y|
 pub fn t_bitxor(a: &Value, b: &Value) -> RRes { bit_op(a, b, |x, y| x ^ y, |x, y| x != y) }
 
 /// `==` of the derived PartialEq (structural; IEEE == on floats; numeric == on decimals)
+/// Injective rendering of a value, written out here: the oracle's cache key and the invocation log must not depend on the crate's own
+/// `Debug` / `Display` impls (a `Debug` that stops telling two values apart is exactly what C11 must notice).
+pub fn canon(v: &Value) -> String {
+    match v {
+        Value::String(s) => format!("S{}:{}", s.len(), s),
+        Value::Int(i) => format!("I{i}"),
+        Value::Float(f) => format!("F{:016x}", f.to_bits()),
+        Value::Decimal(d) => format!("D{}e{}", d.mantissa(), d.scale()),
+        Value::Bool(b) => format!("B{b}"),
+        Value::DateTime(t) => format!("T{}.{}", t.timestamp(), t.timestamp_subsec_nanos()),
+        Value::Duration(d) => format!("U{}", d.num_nanoseconds().map(|n| n.to_string()).unwrap_or_else(|| format!("ms{}", d.num_milliseconds()))),
+        Value::Vec(l) => format!("V{}[{}]", l.len(), l.iter().map(canon).collect::<Vec<_>>().join(",")),
+        Value::Map(m) => format!("M{}{{{}}}", m.len(), m.iter().map(|(k, v)| format!("{}:{}={}", k.len(), k, canon(v))).collect::<Vec<_>>().join(",")),
+        Value::None => "N".to_string(),
+    }
+}
+
 /// Written out (NOT the crate's own `PartialEq`, which is one of the things under test): same kind and equal payload, IEEE `==` on floats
 /// (NaN != NaN, -0.0 == 0.0), numeric `==` on decimals, element-wise on lists, key- and value-wise on maps, None == None structurally.
 pub fn val_eq(a: &Value, b: &Value) -> bool {
@@ -370,11 +387,11 @@ fn call_sem(env: &Env, name: &str, arg: Value, st: &mut St) -> RRes {
     };
     let invoke = |st: &mut St| -> Result<Value, RErr> {
         let prior = st.log.iter().filter(|c| c.name == f.name).count();
-        st.log.push(Call { name: f.name.to_string(), arg: format!("{arg:?}") });
+        st.log.push(Call { name: f.name.to_string(), arg: canon(&arg) });
         (f.behaviour)(&arg, prior).map_err(|e| RErr::UserFunction(name.to_string(), e))
     };
     if f.cacheable {
-        let key = format!("{name}-{arg:?}");
+        let key = format!("{name}-{}", canon(&arg));
         if let Some(v) = st.cache.get(&key) {
             return Ok(v.clone());
         }
